@@ -80,8 +80,14 @@ impl Router {
         use std::panic::AssertUnwindSafe;
 
         while let Some(message) = self.next_event(&receiver) {
+            #[cfg(feature = "verif")]
+            let mut handler_panicked = false;
             let shutdown = panic::catch_unwind(AssertUnwindSafe(|| self.handle_message(message)))
                 .unwrap_or_else(|err| {
+                    #[cfg(feature = "verif")]
+                    {
+                        handler_panicked = true;
+                    }
                     let error_message = if let Some(string) = err.downcast_ref::<&str>() {
                         format!("Panic occurred with message: {}", string)
                     } else if let Some(string) = err.downcast_ref::<String>() {
@@ -92,6 +98,13 @@ impl Router {
                     error!("Panic message: {}", error_message);
                     false
                 });
+            #[cfg(feature = "verif")]
+            crate::verif::at(
+                crate::verif::Point::MessageHandled {
+                    panicked: handler_panicked,
+                },
+                None,
+            );
 
             if shutdown {
                 return Ok(());
@@ -105,7 +118,17 @@ impl Router {
             Message::Request(req) => {
                 let request = req;
                 let self_clone = self.clone();
+                #[cfg(not(feature = "verif"))]
                 let _ = std::thread::spawn(move || self_clone.on_request(request));
+                #[cfg(feature = "verif")]
+                let _ = std::thread::spawn(move || {
+                    let id = Some(request.id.to_string());
+                    crate::verif::at(crate::verif::Point::WorkerStart, id.clone());
+                    let result = self_clone.on_request(request);
+                    drop(self_clone);
+                    crate::verif::at(crate::verif::Point::WorkerExit, id);
+                    result
+                });
                 false
             }
             Message::Notification(notification) => self.on_notification(notification),
@@ -240,6 +263,11 @@ impl Router {
 
         // schedule update
 
+        #[cfg(feature = "verif")]
+        let verif_id = Some(request.id.to_string());
+        #[cfg(feature = "verif")]
+        crate::verif::at(crate::verif::Point::ResultComputed, verif_id.clone());
+
         match response {
             Ok(value) => self.respond(Response {
                 id: request.id,
@@ -252,6 +280,9 @@ impl Router {
                 "error handling request".to_string(),
             )),
         }
+
+        #[cfg(feature = "verif")]
+        crate::verif::at(crate::verif::Point::ResponseSent, verif_id);
 
         false
     }
